@@ -403,7 +403,10 @@ func Emit(v structform.Visitor, e Ev, byRef bool) error {
 	case KKey:
 		if byRef {
 			if r, ok := v.(structform.StringRefVisitor); ok {
-				return r.OnKeyRef([]byte(e.S))
+				b := []byte(e.S)
+				err := r.OnKeyRef(b)
+				checkUnmodified(b, e.S, "OnKeyRef")
+				return err
 			}
 		}
 		return v.OnKey(e.S)
@@ -418,7 +421,10 @@ func Emit(v structform.Visitor, e Ev, byRef bool) error {
 	case KStr:
 		if byRef {
 			if r, ok := v.(structform.StringRefVisitor); ok {
-				return r.OnStringRef([]byte(e.S))
+				b := []byte(e.S)
+				err := r.OnStringRef(b)
+				checkUnmodified(b, e.S, "OnStringRef")
+				return err
 			}
 		}
 		return v.OnString(e.S)
@@ -488,4 +494,30 @@ func EmitArena(v structform.Visitor, e Ev, a *Arena) error {
 		}
 	}
 	return Emit(v, e, false)
+}
+
+// InputModified is set (and stays set until TakeInputModified) when a consumer
+// wrote into bytes that were only lent to it: the argument of OnKeyRef /
+// OnStringRef, or the slice passed to Write ("Write must not modify the slice
+// data, even temporarily").
+var inputModified string
+
+func checkUnmodified(b []byte, want string, where string) {
+	if inputModified == "" && string(b) != want {
+		inputModified = fmt.Sprintf("%s: the callee changed the bytes it was lent: %q became %q", where, trunc80(want), trunc80(string(b)))
+	}
+}
+
+func trunc80(s string) string {
+	if len(s) > 80 {
+		return s[:80] + "..."
+	}
+	return s
+}
+
+// TakeInputModified returns and clears the record of a modified input.
+func TakeInputModified() string {
+	s := inputModified
+	inputModified = ""
+	return s
 }
